@@ -1,1 +1,66 @@
-fn main(){}
+//! E2 `direct`: bounded-exhaustive explorer over the runtime crate used directly (no derive).
+//! Lenses: C06 (stack built-ins), C10t (tracker in isolation), C12, C13, C14, C17l (leaf nodes), C19.
+
+mod c06;
+mod c10t;
+mod c12;
+mod c13;
+mod c14;
+mod c17l;
+mod c19;
+mod common;
+
+fn main() {
+    let args: Vec<String> = std::env::args().collect();
+    let mut lens = String::new();
+    let mut out = None;
+    let mut thorough = false;
+    let mut only: Option<String> = None;
+    let mut i = 1;
+    while i < args.len() {
+        match args[i].as_str() {
+            "--lens" => {
+                lens = args[i + 1].clone();
+                i += 1;
+            }
+            "--out" => {
+                out = Some(args[i + 1].clone());
+                i += 1;
+            }
+            "--tier" => {
+                thorough = args[i + 1] == "thorough";
+                i += 1;
+            }
+            "--only" => {
+                only = Some(args[i + 1].clone());
+                i += 1;
+            }
+            _ => {}
+        }
+        i += 1;
+    }
+    if std::env::var("VERIF_SHOW_PANICS").is_err() {
+        std::panic::set_hook(Box::new(|_| {}));
+    }
+    let t0 = std::time::Instant::now();
+    let o = common::Opts { thorough, only };
+    let rep = match lens.as_str() {
+        "C06" => c06::run(&o),
+        "C10" => c10t::run(&o),
+        "C12" => c12::run(&o),
+        "C13" => c13::run(&o),
+        "C14" => c14::run(&o),
+        "C17" => c17l::run(&o),
+        "C19" => c19::run(&o),
+        _ => {
+            eprintln!("unknown lens");
+            std::process::exit(2);
+        }
+    };
+    let j = rep.to_json(&lens, t0.elapsed().as_secs_f64(), false);
+    match out {
+        Some(p) => std::fs::write(p, j.to_string()).unwrap(),
+        None => println!("{}", j.to_string()),
+    }
+    std::process::exit(if rep.violations.is_empty() { 0 } else { 1 });
+}
